@@ -286,7 +286,7 @@ func init() {
 var (
 	wdStart   atomic.Int64 // unix nanos of the running call, 0 when idle
 	wdOnce    sync.Once
-	wdLimit   = 10 * time.Second
+	wdLimit   = 30 * time.Second
 	journalMu sync.Mutex
 )
 
